@@ -5,8 +5,8 @@ import MdkVerif.Proofs.Client
   delivery that is not a better competitor"): `eraseTs` (what a restart does to a persistent client)
   commutes with every handler of `process_message` that does not compare timestamps, and with
   `processCommit` / the wrong-epoch handler when the MIP-03 comparison says "not better".
-  OPEN: the same for `step1` / `deliverN` (a two-sided case analysis over all branches of `step1`),
-  from which `proj (deliver (restart c).1 e nx).1 = proj (deliver c e nx).1` follows.
+  The two-sided analysis over all branches of `step1` / `deliverN` and the lift to histories is in
+  `Proofs/RestartSim.lean` (relation `Sim`; `Props/C11.lean: restart_invisible_step`, `restart_invisible_partial`).
 -/
 namespace MdkVerif.Client
 open MdkVerif
